@@ -229,8 +229,9 @@ def make_body(prog: dict, fn: dict, log=None, hook=None):
     body.__signature__ = inspect.Signature(
         [inspect.Parameter(p, inspect.Parameter.POSITIONAL_OR_KEYWORD) for p in pnames]
     )
-    body.__name__ = fn["name"]
-    body.__qualname__ = fn["name"]
+    # (two different PipeFuncs may well wrap callables of the same __name__: lambdas, one function wrapped twice)
+    body.__name__ = "f" if prog.get("same_callable_name") else fn["name"]
+    body.__qualname__ = body.__name__
     return body
 
 
